@@ -92,6 +92,12 @@ func Run(worker string, cases []Case, parallel int, perCase time.Duration) ([]Re
 	if err != nil {
 		return nil, err
 	}
+	return RunExe(exe, nil, worker, cases, parallel, perCase)
+}
+
+// RunExe is Run with an explicit worker binary and extra environment (e.g. the -race build with GORACE settings).
+func RunExe(exe string, env []string, worker string, cases []Case, parallel int, perCase time.Duration) ([]Result, error) {
+	var err error
 	tmpBase := os.Getenv("VERIF_TMP")
 	if tmpBase == "" {
 		tmpBase = os.TempDir()
@@ -127,7 +133,7 @@ func Run(worker string, cases []Case, parallel int, perCase time.Duration) ([]Re
 				jf := filepath.Join(dir, fmt.Sprintf("journal-%d-%d", w, round))
 				cb, _ := json.Marshal(todo)
 				os.WriteFile(cf, cb, 0o644)
-				done, cur, detail, status, err := runChild(exe, worker, cf, jf, perCase)
+				done, cur, detail, status, err := runChild(exe, env, worker, cf, jf, perCase)
 				if err != nil {
 					mu.Lock()
 					if firstErr == nil {
@@ -187,12 +193,12 @@ func Run(worker string, cases []Case, parallel int, perCase time.Duration) ([]Re
 }
 
 // runChild runs one child until it exits or stops making progress.
-func runChild(exe, worker, casesFile, journal string, perCase time.Duration) (done []Result, current, detail, status string, err error) {
+func runChild(exe string, env []string, worker, casesFile, journal string, perCase time.Duration) (done []Result, current, detail, status string, err error) {
 	cmd := exec.Command(exe, worker, casesFile, journal)
 	var stderr bytes.Buffer
 	cmd.Stderr = &stderr
 	cmd.Stdout = &stderr
-	cmd.Env = append(os.Environ(), "GOTRACEBACK=all")
+	cmd.Env = append(append(os.Environ(), "GOTRACEBACK=all"), env...)
 	if err = cmd.Start(); err != nil {
 		return
 	}
@@ -214,10 +220,14 @@ loop:
 			if e == nil {
 				sz = st.Size()
 			}
+			limit := perCase
+			if sz == 0 {
+				limit = perCase + 3*time.Minute // process start-up on a loaded machine: the first journal line is not there yet
+			}
 			if sz != lastSize {
 				lastSize = sz
 				lastChange = time.Now()
-			} else if time.Since(lastChange) > perCase {
+			} else if time.Since(lastChange) > limit {
 				// no progress: ask for a goroutine dump, then kill
 				hung = true
 				cmd.Process.Signal(syscall.SIGQUIT)
@@ -252,7 +262,21 @@ loop:
 	}
 	if current != "" || hung {
 		tail := stderr.String()
-		if len(tail) > 6000 {
+		if hung {
+			// keep the goroutines of the dump that are inside the code under test first
+			var lib, rest []string
+			for _, g := range strings.Split(tail, "\n\n") {
+				if strings.Contains(g, "bnb-chain/tss-lib/v2/") {
+					lib = append(lib, g)
+				} else {
+					rest = append(rest, g)
+				}
+			}
+			tail = strings.Join(append(lib, rest...), "\n\n")
+			if len(tail) > 8000 {
+				tail = tail[:8000]
+			}
+		} else if len(tail) > 6000 {
 			tail = tail[:3000] + "\n...\n" + tail[len(tail)-3000:]
 		}
 		detail = tail
